@@ -359,7 +359,13 @@ func (r *adRun) shapeAttrs(sh adShape) []logslog.Attr {
 	for _, s := range sh.Valuers {
 		v[s] = true
 	}
-	return r.buildAttrs(sh.Leaves, v, nil)
+	attrs := r.buildAttrs(sh.Leaves, v, nil)
+	// an optional-attribute helper returning the empty Attr (which a handler ignores) in the middle of the
+	// list: nothing is added by it and nothing after it is lost
+	if len(attrs) >= 2 && len(sh.Leaves)%3 == 1 {
+		attrs = append(attrs[:1], append([]logslog.Attr{{}}, attrs[1:]...)...)
+	}
+	return attrs
 }
 
 func adBytes(m []int) []byte {
